@@ -249,10 +249,6 @@ theorem encodePage_used (t : Tree) (hp : PidInv t) (q : Nat) :
     unfold encodePage
     rw [findNode_none t.root q h1, freeNext_none t.a.free q h2]
 
-theorem w_add_one (n : Nat) : w n + 1#64 = w (n + 1) := by
-  unfold w; rw [BitVec.ofNat_add]
-theorem w_mul (a b : Nat) : w a * w b = w (a * b) := by
-  unfold w; rw [BitVec.ofNat_mul]
 
 theorem pageFits_eq {n ps dataLen : Nat} (h1 : (n + 1) * ps < 2 ^ 63) (h2 : dataLen < 2 ^ 63) :
     pageFits (w n) (w ps) dataLen = decide ((n + 1) * ps ≤ dataLen) := by
